@@ -29,6 +29,9 @@ func runC01(c *an.Ctx) {
 	r01d(c)
 	r01e(c)
 	r01f(c)
+	// shared with C08: "at most one transition or teardown at any time" includes the hooks a transition started: the
+	// transition is answered (and its lock released) only after every awaited hook call has returned
+	c.As(map[string]string{"R08f": "R01g"}, func() { r08f(c) })
 }
 
 type fsmEvent struct {
@@ -245,7 +248,7 @@ func forcedStateOK(c *an.Ctx, fn *ssa.Function, at ssa.Instruction, arg ssa.Valu
 		}
 		for _, pair := range [][2]ssa.Value{{a.X, a.Y}, {a.Y, a.X}} {
 			if cst, ok := pair[1].(*ssa.Const); ok && cst.Value != nil {
-				if k, ok := constant.Int64Val(cst.Value); ok && k == *errConst && an.SameVar(pair[0], v) {
+				if k, ok := an.Int64Of(cst.Value); ok && k == *errConst && an.SameVar(pair[0], v) {
 					return true
 				}
 			}
@@ -280,7 +283,7 @@ func forcedStateOK(c *an.Ctx, fn *ssa.Function, at ssa.Instruction, arg ssa.Valu
 						if !isLd || !isC || cst.Value == nil || ld.X != cell {
 							continue
 						}
-						if k, ok := constant.Int64Val(cst.Value); ok && errConst != nil && k == *errConst && !an.StoreBetween(cell, mc, nil2(mc)) {
+						if k, ok := an.Int64Of(cst.Value); ok && errConst != nil && k == *errConst && !an.StoreBetween(cell, mc, nil2(mc)) {
 							return true, "captured state guarded by == sm.ERROR where the closure is created"
 						}
 					}
@@ -426,6 +429,17 @@ func r01f(c *an.Ctx) {
 	for _, t := range an.ErrTests(req) {
 		if !pathToExitAvoiding(t.NonNilSucc, goerr) {
 			ok1 = true
+		}
+	}
+	// on every path: with the requested transition's error set, no reply is reached without the GO_ERROR attempt
+	// (whatever kind of error it is - a cancelled event included)
+	{
+		var errv ssa.Value = req
+		fl := an.FlowFromFacts(req.Block(), func(b *ssa.BasicBlock, succ int) bool { return b == goerr.Block() }, errv)
+		for _, r := range fl.ReachedReturns() {
+			if r.Block() != goerr.Block() {
+				ok1 = false
+			}
 		}
 	}
 	var forced ssa.Instruction
